@@ -389,7 +389,15 @@ func runHarness(l *Loaded, spec *CheckSpec, h *HarnessSpec, tier string, extraPa
 	} else if tier == "thorough" {
 		// every harness gets a wall-clock budget; a run that hits it is reported as truncated
 		// (what was explored held), never as a completed bound
-		cfg.Deadline = 900 * time.Second
+		// 40 minutes per property, shared by its harnesses (at least 2, at most 15 minutes each)
+		per := 2400 / nSelected
+		if per > 900 {
+			per = 900
+		}
+		if per < 120 {
+			per = 120
+		}
+		cfg.Deadline = time.Duration(per) * time.Second
 	} else {
 		cfg.Deadline = 600 * time.Second
 	}
